@@ -148,6 +148,51 @@ FILTER_T = '''def {name}(ik1: int, ik2: int, ij1: int, ij2: int, nest1: bool, ne
 '''
 
 
+MERGE_T = '''def {name}(ik1: int, ik2: int, ik3: int, ij1: int, ij2: int, ij3: int, il1: int, il2: int, nx: bool, ny: bool, deep: bool, two: bool) -> bool:
+    """
+    pre: 0 <= ik1 < {nk} and 0 <= ik2 < {nk} and 0 <= ik3 < {nk} and 0 <= ij1 < 2 and 0 <= ij2 < 2 and 0 <= ij3 < 2 and 0 <= il1 < 2 and 0 <= il2 < 2
+    post: _
+    """
+    k1, k2, k3, j1, j2, j3, l1, l2 = AL[ik1], AL[ik2], AL[ik3], AL[ij1], AL[ij2], AL[ij3], AL[il1], AL[il2]
+    # two nested choice maps (depth <= 3) with symbolic keys, possibly overlapping at any depth
+    x = {{}}
+    x[k1] = {{j1: ({{l1: 1}} if deep else 2), j2: 3}} if nx else 4
+    if two:
+        x[k3] = 5
+    y = {{}}
+    y[k2] = {{j3: ({{l2: 10}} if deep else 20)}} if ny else 40
+    m, d = _G.merge(x, y)
+    lx, ly, lm = leaves(x), leaves(y), leaves(m)
+    ld = leaves(d) if d else {{}}
+    # a leaf/sub-map conflict (one side a dict, the other a leaf at the same path): the second argument wins as a whole
+    def covered(p, by):
+        return any(q == p[:len(q)] or p == q[:len(p)] for q in by)
+    for p, v in lm.items():
+        if p in ly:
+            if v != ly[p]:
+                return False
+        elif p in lx:
+            if v != lx[p]:
+                return False
+        else:
+            return False
+    for p in ly:
+        if p not in lm:
+            return False
+    for p in lx:
+        if p not in lm and not covered(p, ly):
+            return False
+    # discarded: exactly the first argument's values at paths the second argument overrides
+    for p, v in ld.items():
+        if p not in lx or lx[p] != v or not covered(p, ly):
+            return False
+    for p in lx:
+        if p in ly and p not in ld:
+            return False
+    return True
+'''
+
+
 def groups(tier, seed):
     from .. import corpus
     return ["ch"] + [f"gfilter:{c.name}" for c in corpus.cases(tier) if c.prog.kind == "fn" or "top" in c.features]
@@ -172,11 +217,14 @@ def run_group(g, gid):
         name = f"filt_{k}"
         units.append((name, FILTER_T.format(name=name, expr=e.replace("n3", "n1"), spec=sp.replace("n3", "n1"), nk=3 if th else 2)))
         descs[name] = f"Fn.filter(x, {e}) partitions x: disjoint, union/merge == x, first part == selected leaves"
+    units.append(("merge_0", MERGE_T.format(name="merge_0", nk=3 if th else 2)))
+    descs["merge_0"] = ("Fn.merge(x, y): every leaf of y survives, leaves of x survive unless y overrides them, at EVERY nesting depth "
+                        "(second argument takes precedence); discarded == x's overridden values")
     e, sp = shapes(th)[5]
     units.append(("twin_reach", TWIN_T.format(name="twin_reach", expr=e, spec=sp)))
     units.append(("twin_fault", MATCH_T.format(name="twin_fault", expr="sel((n1, n2))", spec="S.Str(n1)")))
     # heavy units first
-    units.sort(key=lambda u: 0 if u[0].startswith("filt") else (1 if "AL[i1]" in u[1] else 2))
+    units.sort(key=lambda u: 0 if u[0].startswith(("filt", "merge")) else (1 if "AL[i1]" in u[1] else 2))
     res, path, d = runner.run_units(units, PRE, timeout_s=tmo, jobs=14)
     try:
         for name, _ in units:
